@@ -321,6 +321,16 @@ func StringWithParenthesis(expr Expression) string {
 	return strings.Repeat("(", n) + s + strings.Repeat(")", n)
 }
 
+// operandString returns the string representation of expr as operand of a
+// call, index, slicing or type assertion expression, surrounding it by
+// parenthesis if it is an unary or binary operator.
+func operandString(expr Expression) string {
+	if _, ok := expr.(Operator); ok {
+		return "(" + expr.String() + ")"
+	}
+	return expr.String()
+}
+
 // Cut indicates, in a [Text] node, how many bytes should be cut from the left
 // and the right of the text before rendering the [Text] node.
 type Cut struct {
@@ -542,12 +552,8 @@ func NewCall(pos *Position, fun Expression, args []Expression, isVariadic bool) 
 
 // String returns the string representation of n.
 func (n *Call) String() string {
-	s := n.Func.String()
+	s := operandString(n.Func)
 	switch fn := n.Func.(type) {
-	case *UnaryOperator:
-		if fn.Op == OperatorPointer || fn.Op == OperatorReceive {
-			s = "(" + s + ")"
-		}
 	case *FuncType:
 		if len(fn.Result) == 0 {
 			s = "(" + s + ")"
@@ -1027,7 +1033,7 @@ func NewIndex(pos *Position, expr Expression, index Expression) *Index {
 
 // String returns the string representation of n.
 func (n *Index) String() string {
-	return n.Expr.String() + "[" + n.Index.String() + "]"
+	return operandString(n.Expr) + "[" + n.Index.String() + "]"
 }
 
 // Interface node represents an interface type.
@@ -1330,7 +1336,7 @@ func NewSlicing(pos *Position, expr, low, high Expression, max Expression, isFul
 
 // String returns the string representation of n.
 func (n *Slicing) String() string {
-	s := n.Expr.String() + "["
+	s := operandString(n.Expr) + "["
 	if n.Low != nil {
 		s += n.Low.String()
 	}
@@ -1455,9 +1461,9 @@ func NewTypeAssertion(pos *Position, expr Expression, typ Expression) *TypeAsser
 // String returns the string representation of n.
 func (n *TypeAssertion) String() string {
 	if n.Type == nil {
-		return n.Expr.String() + ".(type)"
+		return operandString(n.Expr) + ".(type)"
 	}
-	return n.Expr.String() + ".(" + n.Type.String() + ")"
+	return operandString(n.Expr) + ".(" + n.Type.String() + ")"
 }
 
 // TypeDeclaration node represents a type declaration, that is an alias
